@@ -1,6 +1,6 @@
 (* C08 - Identification is covariant under gain, channel order / orthogonal mixing and time unit; every reported mode
    shape has its largest-magnitude component equal to 1.
-   Statements only: each theorem is closed by [exact] of a lemma of Proofs/P_covar.v.
+   Statements only: each theorem is closed by [exact] of a lemma of Proofs/P_covar.v, P_covar_pipeline.v, P_covar_dim.v.
    The property is about a pipeline  data -> Hankel / spectra -> SVD / least squares -> realisation -> eig -> (fn, xi, phi).
    What is proved, stage by stage (exact arithmetic, kernels = arguments with contracts):
      * Hankel stage (all three forms of C12: mm, R and the parametric single-lag form): gain g  =>  g^2 H ;
@@ -24,12 +24,24 @@
    normalisation (gain; also no transformation at all = independence from the SVD choice), the permuted normalised
    shape (channel permutation, largest modulus attained once), proportional to the rotated shape (orthogonal mixing).
    Stated on the matrices and on the data (hank_mm, hank_R).
-   NOT proved (C08_full_statement below, a Definition that asserts nothing): the same independence from the decomposition
-   LAPACK returns on NOISY, full-rank data (needs uniqueness of singular subspaces under a gap of the singular values). *)
+   Composed END TO END also for NOISY, FULL-RANK data (C08_pipeline_*_noisy, proofs in Proofs/P_covar_dim.v on Base/Dim.v):
+   no exact-rank hypothesis and no "true" system; two runs, each with ANY full decomposition meeting the contract, ANY
+   square roots of the retained singular values, the LEAST-SQUARES solve of the shift equation (pinv / QR solve: a left
+   inverse with rows in the row space, lsq_inv) and ANY full eigen-decomposition; the order ord separates the retained from
+   the discarded singular values (sv_gap_sq; on an ordered carrier with non-negative singular values - numpy's contract -
+   it follows from a gap of the values, C08_sv_gap_of_values / C08_sv_gap_of_threshold); the identified poles of run 1 are
+   pairwise different.  Then the same conclusions as in the exact-rank case hold for: the same matrix (independence from the
+   decomposition LAPACK returns), a common gain, an orthogonal channel mixing, a channel permutation - on the matrices and
+   on the data (hank_mm, hank_R).  The key step is the uniqueness of the retained singular subspace under a gap
+   (C08_svd_subspace_unique).
+   REFUTED: the earlier formulation C08_full_statement (a gap on the singular VALUES over an arbitrary field) is false
+   as written - C08_full_statement_refuted; the contract as modelled does not say that singular values are non-negative.
+   NOT proved: uniqueness of the singular VALUES themselves (the gap hypotheses relate the values of the two decompositions
+   to each other instead); floating-point rounding; the data-dependent choices after the pole table (C10/C11). *)
 From Coq Require Import List Arith Lia Ring Field ZArith QArith Qcanon Reals Permutation.
-From PyOMA.Base Require Import Carrier FMat Cplx EigCount Show.
+From PyOMA.Base Require Import Carrier FMat Cplx EigCount Dim Show.
 From PyOMA.Model Require Import M_hankel M_covar.
-From PyOMA.Proofs Require Import P_hankel P_covar P_covar_pipeline.
+From PyOMA.Proofs Require Import P_hankel P_covar P_realise P_covar_pipeline P_covar_dim.
 Import ListNotations.
 
 Section S.
@@ -421,21 +433,264 @@ Proof.
 Qed.
 End Pipe.
 
-(* ---------------- the remainder, written down but NOT proved (asserts nothing) ----------------
-   What the C08_pipeline_* theorems above do NOT cover is NOISY, FULL-RANK data: there H is not of rank n, the code still
-   truncates the decomposition at an order [ord], the discarded singular values are not zero, and the identified pair is no
-   longer similar to a "true" system.  Covariance of the result then needs independence from the decomposition LAPACK picks
-   WITHOUT the exact-rank hypothesis: two FULL decompositions of the same matrix, truncated at an order [ord] that separates
-   the retained singular values from the discarded ones, span the same column space (singular subspaces are unique under a
-   gap; within a cluster of equal singular values only the subspace is).  From that statement the rest would follow exactly
-   as in the exact-rank case: U2[:, :ord] = U[:, :ord] T gives Obs2 = Obs T' (T' = sqrt(S)^-1 T sqrt(S), retained singular
-   values equal), hence similar realisations (FMat.shift_invariance_similarity), hence by Base/EigCount.v the same pole
-   list up to order and proportional shapes, hence by C08_unity_norm_scale / _perm the same normalised shapes; the gain
-   and mixing cases then reduce to it through C08_svd_gain / C08_svd_orth (the transported triple is ONE decomposition
-   of the transformed matrix).  Missing for the statement below: an eigen-space argument for H^T H (orthogonality of
-   singular vectors belonging to different singular values), i.e. spectral theory of symmetric matrices over an ordered
-   field, which this development does not have.  Also outside every C08 theorem: floating-point rounding, and the
-   data-dependent choices made AFTER the pole table (stabilisation thresholds, pole selection), which are C10/C11. *)
+(* ---------------- uniqueness of the retained singular subspace under a gap (Base/Dim.v) ---------------- *)
+Section SvdGap.
+Variable R:Type. Variable K:Ops R.
+Hypothesis Fth : field_theory (o0 K) (o1 K) (oadd K) (omul K) (osub K) (oopp K) (odiv K) (oinv K) (@eq R).
+Local Open Scope K_scope.
+Notation "0" := (o0 K) : K_scope. Notation "1" := (o1 K) : K_scope.
+Infix "+" := (oadd K) : K_scope. Infix "*" := (omul K) : K_scope.
+
+(* two FULL decompositions of the same matrix, truncated at an order that separates the SQUARED retained values of either
+   from the squared discarded values of the other, retained values non-zero: the retained left singular vectors span
+   the same space, U2[:, :ord] = U[:, :ord] T with T two-sided invertible *)
+Theorem C08_svd_subspace_unique : forall (Rdec:forall x y:R, {x = y} + {x <> y})
+    m n ord (H U:fmat R) S (V U2:fmat R) S2 (V2:fmat R),
+  (ord <= n)%nat ->
+  svd_contract K m n n H U S V -> svd_contract K m n n H U2 S2 V2 ->
+  (forall a b, (a < ord)%nat -> (ord <= b < n)%nat -> S a * S a <> S2 b * S2 b /\ S2 a * S2 a <> S b * S b) ->
+  (forall a, (a < ord)%nat -> S a <> 0 /\ S2 a <> 0) ->
+  exists T Ti:fmat R, feq ord ord (fmul K ord T Ti) (fid K) /\ feq ord ord (fmul K ord Ti T) (fid K) /\
+    feq m ord U2 (fmul K ord U T).
+Proof. exact (svd_subspace_unique_c08 R K Fth). Qed.
+
+(* the least-squares solve (lsq_inv p n L M: L M = I and L = X M^T for some X - what pinv and the QR solve return for a
+   matrix of full column rank) of M' = P M T, P with orthonormal columns and T invertible, is Ti L P^T ... *)
+Theorem C08_lsq_transport : forall (Rdec:forall x y:R, {x = y} + {x <> y}) p n (M M' P T Ti L L':fmat R),
+  feq p p (fmul K p (ftr P) P) (fid K) -> feq n n (fmul K n T Ti) (fid K) ->
+  feq p n M' (fmul K n (fmul K p P M) T) ->
+  lsq_inv R K p n L M -> lsq_inv R K p n L' M' ->
+  feq n p L' (fmul K n Ti (fmul K p L (ftr P))).
+Proof. exact (lsq_transport R K Fth). Qed.
+(* ... hence the pair identified from Obs' (upper rows Pp Oup T, shifted rows Pp Odn T, first block Q Cb T) is similar
+   to (A_1, Q C_1), although neither shift equation has an exact solution *)
+Theorem C08_noisy_similar : forall (Rdec:forall x y:R, {x = y} + {x <> y}) p l n
+    (Oup Odn Cb Oup' Odn' Cb' Pp Q T Ti L L':fmat R),
+  feq p p (fmul K p (ftr Pp) Pp) (fid K) -> feq n n (fmul K n T Ti) (fid K) -> feq n n (fmul K n Ti T) (fid K) ->
+  feq p n Oup' (fmul K n (fmul K p Pp Oup) T) -> feq p n Odn' (fmul K n (fmul K p Pp Odn) T) ->
+  feq l n Cb' (fmul K n (fmul K l Q Cb) T) ->
+  lsq_inv R K p n L Oup -> lsq_inv R K p n L' Oup' ->
+  similar_pair R K l n (fmul K p L Odn) (fmul K l Q Cb) (fmul K p L' Odn') Cb' T Ti.
+Proof. exact (noisy_similar R K Fth). Qed.
+
+(* on an ORDERED carrier (boolean strict order, the facts of Section U) with NON-NEGATIVE singular values - numpy's
+   contract - a gap of the values gives the gap of the squares *)
+Variable ltb : R -> R -> bool.
+Hypothesis lt_irrefl : forall a, ltb a a = false.
+Hypothesis lt_trans : forall a b c, ltb a b = true -> ltb b c = true -> ltb a c = true.
+Hypothesis lt_tricho : forall a b, ltb a b = false -> ltb b a = false -> a = b.
+Hypothesis lt_mul_pos : forall c a b, ltb 0 c = true -> ltb (c*a) (c*b) = ltb a b.
+
+(* sv_gap_values: all values >= 0; retained values agree index-wise and are non-zero; retained <> discarded within each
+   decomposition (the hypotheses of C08_full_statement plus non-negativity and full rank on the retained part) *)
+Theorem C08_sv_gap_of_values : forall n ord (S S2:nat -> R),
+  (ord <= n)%nat -> sv_gap_values R K ltb n ord S S2 -> sv_gap_sq R K n ord S S2.
+Proof. exact (sv_gap_of_values R K Fth ltb lt_irrefl lt_trans lt_tricho lt_mul_pos). Qed.
+(* sv_gap_threshold: some tau >= 0 with retained values of both decompositions > tau >= discarded values >= 0
+   (numpy: values sorted descending, tau = S[ord]) *)
+Theorem C08_sv_gap_of_threshold : forall n ord (S S2:nat -> R),
+  sv_gap_threshold R K ltb n ord S S2 -> sv_gap_sq R K n ord S S2.
+Proof. exact (sv_gap_of_threshold R K Fth ltb lt_irrefl lt_trans lt_tricho lt_mul_pos). Qed.
+
+(* C08_full_statement REPAIRED: its hypotheses plus non-negative singular values and non-zero retained values *)
+Theorem C08_svd_subspace_unique_nonneg : forall m n ord (H U:fmat R) S (V U2:fmat R) S2 (V2:fmat R),
+  (ord <= n)%nat ->
+  svd_contract K m n n H U S V -> svd_contract K m n n H U2 S2 V2 ->
+  (forall i, (i < n)%nat -> ltb (S i) 0 = false /\ ltb (S2 i) 0 = false) ->
+  (forall i, (i < ord)%nat -> S i = S2 i /\ S i <> 0) ->
+  (forall i j, (i < ord)%nat -> (ord <= j < n)%nat -> S i <> S j /\ S2 i <> S2 j) ->
+  exists T Ti:fmat R, feq ord ord (fmul K ord T Ti) (fid K) /\ feq ord ord (fmul K ord Ti T) (fid K) /\
+    feq m ord U2 (fmul K ord U T).
+Proof. exact (svd_subspace_unique_nonneg R K Fth ltb lt_irrefl lt_trans lt_tricho lt_mul_pos). Qed.
+Theorem C08_svd_subspace_unique_threshold : forall m n ord (H U:fmat R) S (V U2:fmat R) S2 (V2:fmat R) (tau:R),
+  (ord <= n)%nat ->
+  svd_contract K m n n H U S V -> svd_contract K m n n H U2 S2 V2 ->
+  ltb tau 0 = false ->
+  (forall a, (a < ord)%nat -> ltb tau (S a) = true /\ ltb tau (S2 a) = true) ->
+  (forall b, (ord <= b < n)%nat ->
+     ltb (S b) 0 = false /\ ltb tau (S b) = false /\ ltb (S2 b) 0 = false /\ ltb tau (S2 b) = false) ->
+  exists T Ti:fmat R, feq ord ord (fmul K ord T Ti) (fid K) /\ feq ord ord (fmul K ord Ti T) (fid K) /\
+    feq m ord U2 (fmul K ord U T).
+Proof. exact (svd_subspace_unique_threshold R K Fth ltb lt_irrefl lt_trans lt_tricho lt_mul_pos). Qed.
+End SvdGap.
+
+(* the repaired statement at the reals, order = Rle *)
+Theorem C08_svd_subspace_unique_R : forall m n ord (H U:fmat R) (S:nat -> R) (V U2:fmat R) (S2:nat -> R) (V2:fmat R),
+  (ord <= n)%nat ->
+  svd_contract cvROps m n n H U S V -> svd_contract cvROps m n n H U2 S2 V2 ->
+  (forall i, (i < n)%nat -> (0 <= S i)%R /\ (0 <= S2 i)%R) ->
+  (forall i, (i < ord)%nat -> S i = S2 i /\ S i <> 0%R) ->
+  (forall i j, (i < ord)%nat -> (ord <= j < n)%nat -> S i <> S j /\ S2 i <> S2 j) ->
+  exists T Ti:fmat R, feq ord ord (fmul cvROps ord T Ti) (fid cvROps) /\ feq ord ord (fmul cvROps ord Ti T) (fid cvROps) /\
+    feq m ord U2 (fmul cvROps ord U T).
+Proof. exact svd_subspace_unique_R. Qed.
+
+(* ---------------- the whole covariance-driven SSI pipeline on NOISY, FULL-RANK data ----------------
+   Vocabulary (Proofs/P_covar_dim.v):
+     lsq_inv p n L M                              L M = I and L = X M^T for some X (pinv / QR solve of a full-column-rank M)
+     noisy_run rows cols l ord H U S V L sq       (U,S,V) meets svd_contract (full: cols triplets) for H, sq j * sq j = S j for
+                                                  j < ord, L is the least-squares inverse of Obs[:-l], Obs = U[:, :ord] sq
+     two_runs_noisy .. H H' (run 1) (run 2) ..    noisy_run for H and for H', eig_run for both A_n = L Obs[l:], and the
+                                                  poles d of run 1 pairwise different
+     sv_gap_sq n ord S S'                         squares of retained values of either decomposition differ from squares of
+                                                  discarded values of the other; retained values non-zero
+   Conclusions exactly as in the exact-rank case (poles_shapes_agree with rel_gain / rel_mix / rel_perm). *)
+Section PipeNoisy.
+Variable R:Type. Variable K:Ops R.
+Hypothesis Fth : field_theory (o0 K) (o1 K) (oadd K) (omul K) (osub K) (oopp K) (odiv K) (oinv K) (@eq R).
+Hypothesis Hreal : forall a b:R, oadd K (omul K a a) (omul K b b) = o0 K -> a = o0 K.
+Local Open Scope K_scope.
+Notation "0" := (o0 K) : K_scope. Notation "1" := (o1 K) : K_scope.
+Infix "+" := (oadd K) : K_scope. Infix "*" := (omul K) : K_scope.
+Variable ltb : R -> R -> bool.
+Hypothesis lt_irrefl : forall a, ltb a a = false.
+Hypothesis lt_trans : forall a b c, ltb a b = true -> ltb b c = true -> ltb a c = true.
+Hypothesis lt_tricho : forall a b, ltb a b = false -> ltb b a = false -> a = b.
+Hypothesis lt_mul_pos : forall c a b, ltb 0 c = true -> ltb (c*a) (c*b) = ltb a b.
+Hypothesis sq_nonneg : forall a b, ltb (a*a + b*b) 0 = false.
+
+(* (0) the same matrix, two arbitrary decompositions / roots / eigen-solver answers: the result does not depend on the
+   decomposition the SVD kernel returns *)
+Theorem C08_pipeline_svd_choice_noisy : forall rows cols l ord (H:fmat R)
+    U V L S sq U' V' L' S' sq' Vv W Vv' W' d d',
+  (l <= rows)%nat -> (ord <= cols)%nat ->
+  two_runs_noisy R K rows cols l ord H H U V L S sq U' V' L' S' sq' Vv W Vv' W' d d' ->
+  sv_gap_sq R K cols ord S S' ->
+  poles_shapes_agree R K l ord d d' (rel_gain R K ltb l ord (ident_C R K U sq) Vv (ident_C R K U' sq') Vv').
+Proof. exact (pipeline_svd_choice_noisy R K Fth Hreal ltb lt_irrefl lt_tricho lt_mul_pos sq_nonneg). Qed.
+
+(* (i) common gain g: H' = g^2 H; the singular values of g^2 H are g^2 S *)
+Theorem C08_pipeline_gain_noisy : forall rows cols l ord (H:fmat R) (g:R)
+    U V L S sq U' V' L' S' sq' Vv W Vv' W' d d',
+  (l <= rows)%nat -> (ord <= cols)%nat ->
+  two_runs_noisy R K rows cols l ord H (fscal K (g*g) H) U V L S sq U' V' L' S' sq' Vv W Vv' W' d d' ->
+  sv_gap_sq R K cols ord (fun i => (g*g) * S i) S' ->
+  poles_shapes_agree R K l ord d d' (rel_gain R K ltb l ord (ident_C R K U sq) Vv (ident_C R K U' sq') Vv').
+Proof. exact (pipeline_gain_noisy R K Fth Hreal ltb lt_irrefl lt_tricho lt_mul_pos sq_nonneg). Qed.
+
+(* (ii) orthogonal mixing Q of the channels, Qr of the references *)
+Theorem C08_pipeline_mix_noisy : forall l r br ord (H Q Qr:fmat R)
+    U V L S sq U' V' L' S' sq' Vv W Vv' W' d d',
+  (0 < l)%nat -> (0 < r)%nat -> (ord <= hank_cols r br)%nat ->
+  feq l l (fmul K l (ftr Q) Q) (fid K) -> feq r r (fmul K r (ftr Qr) Qr) (fid K) ->
+  two_runs_noisy R K (hank_rows l br) (hank_cols r br) l ord H (hank_mix_rhs K l r Q Qr H)
+                 U V L S sq U' V' L' S' sq' Vv W Vv' W' d d' ->
+  sv_gap_sq R K (hank_cols r br) ord S S' ->
+  poles_shapes_agree R K l ord d d' (rel_mix R K ltb l ord Q (ident_C R K U sq) Vv (ident_C R K U' sq') Vv').
+Proof. exact (pipeline_mix_noisy R K Fth Hreal ltb lt_irrefl lt_tricho lt_mul_pos sq_nonneg). Qed.
+
+(* (ii') channel permutation pi, reference permutation rho *)
+Theorem C08_pipeline_perm_noisy : forall l r br ord (H:fmat R) (pi pinv rho rhoinv:nat -> nat)
+    U V L S sq U' V' L' S' sq' Vv W Vv' W' d d',
+  (forall a, (a < l)%nat -> (pi a < l)%nat /\ pinv (pi a) = a) ->
+  (forall c, (c < l)%nat -> (pinv c < l)%nat /\ pi (pinv c) = c) ->
+  (forall a, (a < r)%nat -> (rho a < r)%nat /\ rhoinv (rho a) = a) ->
+  (forall c, (c < r)%nat -> (rhoinv c < r)%nat /\ rho (rhoinv c) = c) ->
+  (0 < l)%nat -> (0 < r)%nat -> (ord <= hank_cols r br)%nat ->
+  two_runs_noisy R K (hank_rows l br) (hank_cols r br) l ord H (hank_perm_rhs l r pi rho H)
+                 U V L S sq U' V' L' S' sq' Vv W Vv' W' d d' ->
+  sv_gap_sq R K (hank_cols r br) ord S S' ->
+  poles_shapes_agree R K l ord d d' (rel_perm R K ltb l ord pi (ident_C R K U sq) Vv (ident_C R K U' sq') Vv').
+Proof. exact (pipeline_perm_noisy R K Fth Hreal ltb lt_irrefl lt_trans lt_tricho lt_mul_pos sq_nonneg). Qed.
+
+(* the same on the DATA, methods cov_mm (hank_mm) and cov_R (hank_R) *)
+Theorem C08_pipeline_gain_noisy_mm : forall invN l r br Ndat ord (Y Yref:sig R) (g:R)
+    U V L S sq U' V' L' S' sq' Vv W Vv' W' d d',
+  (ord <= hank_cols r br)%nat ->
+  two_runs_noisy R K (hank_rows l br) (hank_cols r br) l ord
+                 (hank_mm K invN l r br Ndat Y Yref) (hank_mm K invN l r br Ndat (sgain K g Y) (sgain K g Yref))
+                 U V L S sq U' V' L' S' sq' Vv W Vv' W' d d' ->
+  sv_gap_sq R K (hank_cols r br) ord (fun i => (g*g) * S i) S' ->
+  poles_shapes_agree R K l ord d d' (rel_gain R K ltb l ord (ident_C R K U sq) Vv (ident_C R K U' sq') Vv').
+Proof.
+  exact (fun invN l r br Ndat => pipeline_gain_noisy_data R K Fth Hreal ltb lt_irrefl lt_tricho lt_mul_pos sq_nonneg
+           _ _ _ _ l r br (hank_mm K invN l r br Ndat) (hank_mm_is_gen R K (F_R Fth) invN l r br Ndat)).
+Qed.
+Theorem C08_pipeline_gain_noisy_R : forall invn l r br Ndat ord (Y Yref:sig R) (g:R)
+    U V L S sq U' V' L' S' sq' Vv W Vv' W' d d',
+  (ord <= hank_cols r br)%nat ->
+  two_runs_noisy R K (hank_rows l br) (hank_cols r br) l ord
+                 (hank_R K invn l r br Ndat Y Yref) (hank_R K invn l r br Ndat (sgain K g Y) (sgain K g Yref))
+                 U V L S sq U' V' L' S' sq' Vv W Vv' W' d d' ->
+  sv_gap_sq R K (hank_cols r br) ord (fun i => (g*g) * S i) S' ->
+  poles_shapes_agree R K l ord d d' (rel_gain R K ltb l ord (ident_C R K U sq) Vv (ident_C R K U' sq') Vv').
+Proof.
+  exact (fun invn l r br Ndat => pipeline_gain_noisy_data R K Fth Hreal ltb lt_irrefl lt_tricho lt_mul_pos sq_nonneg
+           _ _ _ _ l r br (hank_R K invn l r br Ndat) (hank_R_is_gen R K (F_R Fth) invn l r br Ndat)).
+Qed.
+Theorem C08_pipeline_mix_noisy_mm : forall invN l r br Ndat ord (Y Yref:sig R) (Q Qr:fmat R)
+    U V L S sq U' V' L' S' sq' Vv W Vv' W' d d',
+  (0 < l)%nat -> (0 < r)%nat -> (ord <= hank_cols r br)%nat ->
+  feq l l (fmul K l (ftr Q) Q) (fid K) -> feq r r (fmul K r (ftr Qr) Qr) (fid K) ->
+  two_runs_noisy R K (hank_rows l br) (hank_cols r br) l ord
+                 (hank_mm K invN l r br Ndat Y Yref) (hank_mm K invN l r br Ndat (smix K l Q Y) (smix K r Qr Yref))
+                 U V L S sq U' V' L' S' sq' Vv W Vv' W' d d' ->
+  sv_gap_sq R K (hank_cols r br) ord S S' ->
+  poles_shapes_agree R K l ord d d' (rel_mix R K ltb l ord Q (ident_C R K U sq) Vv (ident_C R K U' sq') Vv').
+Proof.
+  exact (fun invN l r br Ndat => pipeline_mix_noisy_data R K Fth Hreal ltb lt_irrefl lt_tricho lt_mul_pos sq_nonneg
+           _ _ _ _ l r br (hank_mm K invN l r br Ndat) (hank_mm_is_gen R K (F_R Fth) invN l r br Ndat)).
+Qed.
+Theorem C08_pipeline_mix_noisy_R : forall invn l r br Ndat ord (Y Yref:sig R) (Q Qr:fmat R)
+    U V L S sq U' V' L' S' sq' Vv W Vv' W' d d',
+  (0 < l)%nat -> (0 < r)%nat -> (ord <= hank_cols r br)%nat ->
+  feq l l (fmul K l (ftr Q) Q) (fid K) -> feq r r (fmul K r (ftr Qr) Qr) (fid K) ->
+  two_runs_noisy R K (hank_rows l br) (hank_cols r br) l ord
+                 (hank_R K invn l r br Ndat Y Yref) (hank_R K invn l r br Ndat (smix K l Q Y) (smix K r Qr Yref))
+                 U V L S sq U' V' L' S' sq' Vv W Vv' W' d d' ->
+  sv_gap_sq R K (hank_cols r br) ord S S' ->
+  poles_shapes_agree R K l ord d d' (rel_mix R K ltb l ord Q (ident_C R K U sq) Vv (ident_C R K U' sq') Vv').
+Proof.
+  exact (fun invn l r br Ndat => pipeline_mix_noisy_data R K Fth Hreal ltb lt_irrefl lt_tricho lt_mul_pos sq_nonneg
+           _ _ _ _ l r br (hank_R K invn l r br Ndat) (hank_R_is_gen R K (F_R Fth) invn l r br Ndat)).
+Qed.
+Theorem C08_pipeline_perm_noisy_mm : forall invN l r br Ndat ord (Y Yref:sig R) (pi pinv rho rhoinv:nat -> nat)
+    U V L S sq U' V' L' S' sq' Vv W Vv' W' d d',
+  (forall a, (a < l)%nat -> (pi a < l)%nat /\ pinv (pi a) = a) ->
+  (forall c, (c < l)%nat -> (pinv c < l)%nat /\ pi (pinv c) = c) ->
+  (forall a, (a < r)%nat -> (rho a < r)%nat /\ rhoinv (rho a) = a) ->
+  (forall c, (c < r)%nat -> (rhoinv c < r)%nat /\ rho (rhoinv c) = c) ->
+  (0 < l)%nat -> (0 < r)%nat -> (ord <= hank_cols r br)%nat ->
+  two_runs_noisy R K (hank_rows l br) (hank_cols r br) l ord
+                 (hank_mm K invN l r br Ndat Y Yref) (hank_mm K invN l r br Ndat (sperm pi Y) (sperm rho Yref))
+                 U V L S sq U' V' L' S' sq' Vv W Vv' W' d d' ->
+  sv_gap_sq R K (hank_cols r br) ord S S' ->
+  poles_shapes_agree R K l ord d d' (rel_perm R K ltb l ord pi (ident_C R K U sq) Vv (ident_C R K U' sq') Vv').
+Proof.
+  exact (fun invN l r br Ndat => pipeline_perm_noisy_data R K Fth Hreal ltb lt_irrefl lt_trans lt_tricho lt_mul_pos sq_nonneg
+           _ _ _ _ l r br (hank_mm K invN l r br Ndat) (hank_mm_is_gen R K (F_R Fth) invN l r br Ndat)).
+Qed.
+Theorem C08_pipeline_perm_noisy_R : forall invn l r br Ndat ord (Y Yref:sig R) (pi pinv rho rhoinv:nat -> nat)
+    U V L S sq U' V' L' S' sq' Vv W Vv' W' d d',
+  (forall a, (a < l)%nat -> (pi a < l)%nat /\ pinv (pi a) = a) ->
+  (forall c, (c < l)%nat -> (pinv c < l)%nat /\ pi (pinv c) = c) ->
+  (forall a, (a < r)%nat -> (rho a < r)%nat /\ rhoinv (rho a) = a) ->
+  (forall c, (c < r)%nat -> (rhoinv c < r)%nat /\ rho (rhoinv c) = c) ->
+  (0 < l)%nat -> (0 < r)%nat -> (ord <= hank_cols r br)%nat ->
+  two_runs_noisy R K (hank_rows l br) (hank_cols r br) l ord
+                 (hank_R K invn l r br Ndat Y Yref) (hank_R K invn l r br Ndat (sperm pi Y) (sperm rho Yref))
+                 U V L S sq U' V' L' S' sq' Vv W Vv' W' d d' ->
+  sv_gap_sq R K (hank_cols r br) ord S S' ->
+  poles_shapes_agree R K l ord d d' (rel_perm R K ltb l ord pi (ident_C R K U sq) Vv (ident_C R K U' sq') Vv').
+Proof.
+  exact (fun invn l r br Ndat => pipeline_perm_noisy_data R K Fth Hreal ltb lt_irrefl lt_trans lt_tricho lt_mul_pos sq_nonneg
+           _ _ _ _ l r br (hank_R K invn l r br Ndat) (hank_R_is_gen R K (F_R Fth) invn l r br Ndat)).
+Qed.
+End PipeNoisy.
+
+(* ---------------- the earlier formulation of the remainder: REFUTED ----------------
+   C08_full_statement was written down (as a Definition that asserts nothing) as the statement still missing for noisy,
+   full-rank data: "two full decompositions of the same matrix whose retained singular VALUES agree and differ from the
+   discarded ones span the same retained column space", over an arbitrary field.  It is FALSE as written
+   (C08_full_statement_refuted below): over Qc take H = diag(1,-1) = I diag(1,-1) I^T = U2 diag(1,-1) V2^T with U2, V2 the
+   3-4-5 rotations; both triples meet svd_contract, the values agree and 1 <> -1, but the first column of U2 is no multiple
+   of e_0.  On a generic field a gap of the values is not a gap of the squares; numpy's singular values are non-negative,
+   which svd_contract does not say.  The repaired statements are C08_svd_subspace_unique (gap of the squares),
+   C08_svd_subspace_unique_nonneg / _threshold / _R (ordered carrier, non-negative values, gap of the values), and the
+   pipeline consequences the old comment sketched are C08_pipeline_*_noisy above.
+   Still outside every C08 theorem: uniqueness of the singular values themselves (the gap hypotheses relate the values of
+   both decompositions), floating-point rounding, and the data-dependent choices made AFTER the pole table (stabilisation
+   thresholds, pole selection), which are C10/C11. *)
 Definition C08_full_statement : Prop :=
   forall (R:Type) (K:Ops R),
   field_theory (o0 K) (o1 K) (oadd K) (omul K) (osub K) (oopp K) (odiv K) (oinv K) (@eq R) ->
@@ -445,6 +700,9 @@ Definition C08_full_statement : Prop :=
   (forall i, (i < ord)%nat -> S i = S2 i) ->
   (forall i j, (i < ord)%nat -> (ord <= j < n)%nat -> S i <> S j /\ S2 i <> S2 j) ->
   exists T Ti:fmat R, feq ord ord (fmul K ord T Ti) (fid K) /\ feq m ord U2 (fmul K ord U T).
+
+Theorem C08_full_statement_refuted : ~ C08_full_statement.
+Proof. exact full_statement_refuted. Qed.
 
 Print Assumptions C08_hank_gain_gen.
 Print Assumptions C08_hank_gain_mm.
@@ -494,6 +752,25 @@ Print Assumptions C08_pipeline_mix_mm.
 Print Assumptions C08_pipeline_mix_R.
 Print Assumptions C08_pipeline_perm_mm.
 Print Assumptions C08_pipeline_perm_R.
+Print Assumptions C08_svd_subspace_unique.
+Print Assumptions C08_lsq_transport.
+Print Assumptions C08_noisy_similar.
+Print Assumptions C08_sv_gap_of_values.
+Print Assumptions C08_sv_gap_of_threshold.
+Print Assumptions C08_svd_subspace_unique_nonneg.
+Print Assumptions C08_svd_subspace_unique_threshold.
+Print Assumptions C08_svd_subspace_unique_R.
+Print Assumptions C08_pipeline_svd_choice_noisy.
+Print Assumptions C08_pipeline_gain_noisy.
+Print Assumptions C08_pipeline_mix_noisy.
+Print Assumptions C08_pipeline_perm_noisy.
+Print Assumptions C08_pipeline_gain_noisy_mm.
+Print Assumptions C08_pipeline_gain_noisy_R.
+Print Assumptions C08_pipeline_mix_noisy_mm.
+Print Assumptions C08_pipeline_mix_noisy_R.
+Print Assumptions C08_pipeline_perm_noisy_mm.
+Print Assumptions C08_pipeline_perm_noisy_R.
+Print Assumptions C08_full_statement_refuted.
 
 (* ---------------- non-vacuity ---------------- *)
 (* l=3 channels, r=1 reference, br=1, Ndat=8: gain 3 and the cyclic channel permutation on integer data *)
@@ -580,3 +857,41 @@ Example C08_example_pipeline_evaluated :
     = plx_sh (unity_norm_Qc (cv_vperm QcOps plx_swap 2 (shape_of Qc QcOps 2 2 (ident_C Qc QcOps plx_U plx_sq) plx_Vv 1))) /\
   plx_sh (unity_norm_Qc (shape_of Qc QcOps 2 2 (ident_C Qc QcOps plx_Up plx_sqp) plx_Vvp 1)) = Some [(1, 0); (0, -1)]%Q.
 Proof. exact plx_evaluated. Qed.
+
+(* ---------------- non-vacuity of the noisy-data theorems ----------------
+   l = 2 channels, r = 1 reference, br = 2: H is 6 x 3 of FULL rank 3 with singular values (4, 4, 1), order 2.  The
+   discarded singular value is not zero and the shift equation has no exact solution (non-zero least-squares residual).
+   Run 2 works on 9 H (gain 3) with singular vectors rotated inside the retained singular subspace, the third one negated,
+   and roots (6, -6); both solves are the pseudo-inverses; poles +- 2i/3 listed in different orders. *)
+(* the instance is outside the exact-rank theorems *)
+Example C08_example_noisy_residual :
+  fmul QcOps 2 (cv_obs QcOps nzx_U nzx_sq) (ident_A Qc QcOps 6 2 nzx_L nzx_U nzx_sq) 0%nat 0%nat
+  <> rows_from 2 (cv_obs QcOps nzx_U nzx_sq) 0%nat 0%nat /\ nzx_S 2%nat <> Q2Qc 0.
+Proof. exact nzx_residual. Qed.
+(* every hypothesis of C08_pipeline_gain_noisy holds, the gap both in the threshold form (tau = 9) and in the squared form *)
+Example C08_example_noisy_hyps :
+  two_runs_noisy Qc QcOps 6 3 2 2 nzx_H (fscal QcOps (q 3 1 * q 3 1)%Qc nzx_H)
+    nzx_U nzx_V nzx_L nzx_S nzx_sq nzx_Ug nzx_Vg nzx_Lg nzx_Sg nzx_sqg nzx_Vv nzx_W nzx_Vvg nzx_Wg nzx_d nzx_dg /\
+  sv_gap_threshold Qc QcOps Qc_ltb 3 2 (fun i => ((q 3 1 * q 3 1) * nzx_S i)%Qc) nzx_Sg /\
+  sv_gap_sq Qc QcOps 3 2 (fun i => ((q 3 1 * q 3 1) * nzx_S i)%Qc) nzx_Sg.
+Proof. exact nzx_gain_hyps. Qed.
+(* the hypotheses of C08_svd_subspace_unique_nonneg / C08_sv_gap_of_values hold for two different decompositions of H *)
+Example C08_example_noisy_gap_values :
+  svd_contract QcOps 6 3 3 nzx_H nzx_U nzx_S nzx_V /\
+  svd_contract QcOps 6 3 3 nzx_H (fmul QcOps 3 nzx_U nzx_B) nzx_S (fmul QcOps 3 nzx_V nzx_B) /\
+  sv_gap_values Qc QcOps Qc_ltb 3 2 nzx_S nzx_S /\
+  nzx_U 0%nat 0%nat <> fmul QcOps 3 nzx_U nzx_B 0%nat 0%nat.
+Proof. exact nzx_gap_values. Qed.
+(* so the theorem fires ... *)
+Example C08_example_noisy_fires :
+  poles_shapes_agree Qc QcOps 2 2 nzx_d nzx_dg
+    (rel_gain Qc QcOps Qc_ltb 2 2 (ident_C Qc QcOps nzx_U nzx_sq) nzx_Vv (ident_C Qc QcOps nzx_Ug nzx_sqg) nzx_Vvg).
+Proof. exact nzx_gain_fires. Qed.
+(* ... and what it asserts is visible by evaluation: mode 0 of run 1 and mode 1 of the gained run carry the pole -2i/3 and
+   the same unity-normalised shape (1, i) *)
+Example C08_example_noisy_evaluated :
+  nzx_d 0%nat = nzx_dg 1%nat /\
+  plx_sh (unity_norm_Qc (shape_of Qc QcOps 2 2 (ident_C Qc QcOps nzx_Ug nzx_sqg) nzx_Vvg 1))
+    = plx_sh (unity_norm_Qc (shape_of Qc QcOps 2 2 (ident_C Qc QcOps nzx_U nzx_sq) nzx_Vv 0)) /\
+  plx_sh (unity_norm_Qc (shape_of Qc QcOps 2 2 (ident_C Qc QcOps nzx_U nzx_sq) nzx_Vv 0)) = Some [(1, 0); (0, 1)]%Q.
+Proof. exact nzx_evaluated. Qed.
